@@ -19,7 +19,7 @@ func implUP(a, sec, ra []byte) *Toks {
 
 func init() {
 	props["C04"] = func(c *Ctx) {
-		c.Res.Rule = "NewUserPassword: every plaintext length 0..140 x random contents (incl. embedded NULs) x secret lengths 0..64 x authenticator lengths 0..32; UserPassword: ciphertexts of every length 0..300 (random) and the decryption of every produced ciphertext (round trip) incl. via rfc2865.UserPassword_Set/Get; model and the from-the-RFC oracle (Gallina MD5) compared byte for byte. non-trivial = accepted input with more than one 16-byte block"
+		c.Res.Rule = "NewUserPassword: every plaintext length 0..140 x random contents (incl. embedded NULs) x secret lengths 0..64, 64..66 and up to 465 x authenticator lengths 0..32; UserPassword: ciphertexts of every length 0..300 (random) and the decryption of every produced ciphertext (round trip), plaintexts around every multiple of 4096 up to 69632 (refused), incl. via rfc2865.UserPassword_Set/Get; model and the from-the-RFC oracle (Gallina MD5) compared byte for byte. non-trivial = accepted input with more than one 16-byte block"
 		r := c.Rng.Fork()
 		reps := c.N(4, 60)
 		for rep := 0; rep < reps; rep++ {
@@ -44,6 +44,9 @@ func init() {
 					rl = r.Intn(33)
 				case 2:
 					sl = r.Intn(65)
+				case 3, 4:
+					// longer than one MD5 block, and much longer
+					sl = 64 + r.Intn(3) + r.Intn(2)*r.Intn(400)
 				}
 				sec, ra := r.Bytes(sl), r.Bytes(rl)
 				t := implNUP(pt, sec, ra)
@@ -78,6 +81,15 @@ func init() {
 				}
 			}
 		}
+		// far beyond the limit: lengths around every multiple of 16*256 (a chunk count kept in a narrow integer wraps there)
+		for _, base := range []int{256, 1024, 2048, 4096, 8192, 12288, 16384, 65536, 65536 + 4096} {
+			for _, d := range []int{-17, -16, -15, -1, 0, 1, 15, 16, 17, 64, 128} {
+				n := base + d
+				pt := r.Bytes(n)
+				sec, ra := r.Bytes(1+r.Intn(20)), r.Bytes(16)
+				c.Add(T(Req{Name: "nup", Bs: [][]byte{pt, sec, ra}}, implNUP(pt, sec, ra), "nup-huge"))
+			}
+		}
 		// decoder on arbitrary ciphertexts
 		for rep := 0; rep < c.N(2, 30); rep++ {
 			for n := 0; n <= 300; n++ {
@@ -88,6 +100,9 @@ func init() {
 				sl, rl := 1+r.Intn(10), 16
 				if r.Intn(15) == 0 {
 					sl = 0
+				}
+				if r.Intn(8) == 0 {
+					sl = 64 + r.Intn(3) + r.Intn(2)*r.Intn(400)
 				}
 				if r.Intn(15) == 0 {
 					rl = r.Pick(0, 15, 17, 32)
@@ -101,7 +116,7 @@ func init() {
 				c.Add(T(Req{Name: "up", Bs: [][]byte{a, sec, ra}}, t, tag))
 			}
 		}
-		c.Trivial("nup-refused", "up-refused", "nup-ok-1blk")
+		c.Trivial("nup-refused", "up-refused", "nup-ok-1blk", "nup-huge")
 		c.Flush()
 		c.RequireTags("nup-ok-1blk", "nup-ok-2blk", "nup-ok-8blk", "nup-refused", "up-of-nup", "up-ok", "up-refused")
 	}
